@@ -241,6 +241,8 @@ def check_detector(rec, inp):
         return False, info
     th = float(det.threshold_)
     info["threshold"] = th
+    if not (th >= 0):           # outside the quantifier (tuned on a user-defined score with negative values)
+        return False, info
     res, err = O.attempt(lambda: det.predict(X))
     if err is not None:
         rec.violation(f"SeededBinarySegmentation:predict:{type(err).__name__}:{name}", f"predict raised {err!r}", "C07.detector", inp)
